@@ -516,6 +516,9 @@ Definition s1_builtins : list str := Eval compute in map s_
 Definition fr_tyin (strict : bool) (t : ty) : bool := if strict then ty_s1in t else true.
 Definition fr_ty (strict : bool) (t : ty) : bool := if strict then ty_s1 t else true.
 
+(* callable inside the fragment: the modelled built-ins and the user's functions *)
+Definition call_frag (name : str) : bool := mem_str name s1_builtins || negb (is_some (builtin_sig name)).
+
 Section Frag.
 Context (strict : bool).
 
@@ -531,7 +534,7 @@ Fixpoint s1_expr (e : expr) {struct e} : bool :=
   | EAny a t => fr_tyin strict t && s1_expr a
   | EArr t es => fr_tyin strict t && s1_exprs es
   | EMap t ps => fr_tyin strict t && s1_pairs ps
-  | ECall name t args => mem_str name s1_builtins && s1_exprs args
+  | ECall name t args => call_frag name && s1_exprs args
   | EUn _ a => s1_expr a
   | EBin _ t l r => fr_tyin strict t && s1_expr l && s1_expr r
   | EIndex t l i => fr_tyin strict t && s1_expr l && s1_expr i
@@ -555,8 +558,8 @@ Fixpoint s1_stmt (s : stmt) {struct s} : bool :=
   match s with
   | SDecl _ t e => fr_ty strict t && s1_expr e
   | SAssign target e => s1_expr target && s1_expr e
-  | SCallStmt name args => mem_str name s1_builtins && s1_exprs args
-  | SReturn _ => false
+  | SCallStmt name args => call_frag name && s1_exprs args
+  | SReturn o => s1_opt o
   | SBreak => true
   | SIf conds els =>
       (fix go (cs : list (expr * list stmt)) : bool :=
@@ -576,12 +579,16 @@ Fixpoint s1_stmt (s : stmt) {struct s} : bool :=
 Fixpoint s1_stmts (l : list stmt) : bool :=
   match l with [] => true | x :: r => s1_stmt x && s1_stmts r end.
 
+(* a function of the fragment: its body, and (strict) a variadic parameter whose array type is in it *)
+Definition s1_func (fd : funcdef) : bool :=
+  s1_stmts (fn_body fd) && match fn_variadic fd with Some (_, t) => fr_tyin strict t | None => true end.
+
 End Frag.
 
 (* the two proved fragments: [s1_program] (any never inside a composite: no run goes wrong at all) and
    the wider [s2_program] (no run goes wrong except by exhausting the host stack on a cyclic value) *)
-Definition s1_program (P : program) : bool := s1_stmts true (p_stmts P).
-Definition s2_program (P : program) : bool := s1_stmts false (p_stmts P).
+Definition s1_program (P : program) : bool := s1_stmts true (p_stmts P) && forallb (s1_func true) (p_funcs P).
+Definition s2_program (P : program) : bool := s1_stmts false (p_stmts P) && forallb (s1_func false) (p_funcs P).
 
 (* ---------- diagnosis: a short reason symbol for a rejected program ---------- *)
 Definition expr_kind (e : expr) : string :=
